@@ -12,8 +12,8 @@ Oracle: the property's statement on the implementation's observations (independe
 """
 from __future__ import annotations
 
-import copy
 import json
+import os
 import re
 from pathlib import Path
 
@@ -507,8 +507,8 @@ def run_batch(ctx: Ctx, hists, origin, per_worker=6, timeout=600):
             ctx.hist("oracle", sig)
             known = any(k.get("status", "known") == "known" and re.fullmatch(k["signature"], sig) for k in ctx.known)
             hh = h
-            if not known:
-                hh = shrink(ctx, h, sig)
+            if not known and sig not in {x for x, _ in ctx.oracle_failures} and len({x for x, _ in ctx.oracle_failures}) < 4:
+                hh = shrink(ctx, h, sig)      # one shrink per new signature, at most 4 per run
             ctx.oracle_fail(sig, {"history": hh, "first_failing_step": n, "origin": origin,
                                   "how_to_replay": "./check C01 --replay <this file>"}, what)
         good.append((h, res))
@@ -699,8 +699,7 @@ def run(ctx: Ctx):
 
     # 3. generated histories
     r = ctx.rng
-    n_hist = 150 if ctx.quick else 1500
-    import os
+    n_hist = 150 if ctx.quick else 1000
     n_hist = int(os.environ.get("C01_NHIST", n_hist))      # development knob only; the registered command does not set it
     nops = (8, 16) if ctx.quick else (10, 28)
     hists = []
